@@ -103,7 +103,7 @@ bool_t utilOnExit(void (*fn)())
 		mtMtxUnlock(_mtx);
 		return FALSE;
 	}
-	ASSERT(blobSize(_fns) % sizeof(util_onexit_t) == 0);
+	ASSERT(blobSize(b) % sizeof(util_onexit_t) == 0);
 	_fns = (util_onexit_t*)b;
 	// добавить функцию
 	_fns[blobSize(_fns) / sizeof(util_onexit_t) - 1] = fn;
